@@ -51,8 +51,12 @@ impl Sync {
             None => (0, 0),
         };
 
-        bitbox_sync.wait_pre_meta()?;
-        let beatree_meta_wd = beatree_sync.wait_pre_meta()?;
+        // Both tasks are waited for before a failure of either is reported: the value store must not
+        // go on writing to its files behind an error which has already been returned.
+        let bitbox_pre_meta = bitbox_sync.wait_pre_meta();
+        let beatree_pre_meta = beatree_sync.wait_pre_meta();
+        bitbox_pre_meta?;
+        let beatree_meta_wd = beatree_pre_meta?;
 
         if let Some(PanicOnSyncMode::PostWal) = self.panic_on_sync {
             panic!("panic_on_sync is true (post-wal)")
